@@ -232,9 +232,27 @@ macro_rules! opt_jump {
         false
     }};
 }
+thread_local! {
+    static NE_INCONSISTENT: std::cell::Cell<Option<&'static str>> = const { std::cell::Cell::new(None) };
+}
+
+/// type name of a generator for which `a != b` did not answer the opposite of `a == b` since the
+/// last call (C10 consults this after every case; `PartialEq::ne` may be overridden by hand)
+pub fn take_ne_inconsistency() -> Option<&'static str> {
+    NE_INCONSISTENT.with(|c| c.take())
+}
+
 macro_rules! opt_eq {
     (yes, $T:ty, $s:expr, $o:expr) => {
-        $o.as_any().downcast_ref::<W<$T>>().map(|o| $s.0 == o.0)
+        $o.as_any().downcast_ref::<W<$T>>().map(|o| {
+            let e = $s.0 == o.0;
+            #[allow(clippy::nonminimal_bool)]
+            let n = $s.0 != o.0;
+            if e == n {
+                NE_INCONSISTENT.with(|c| c.set(Some(stringify!($T))));
+            }
+            e
+        })
     };
     (no, $T:ty, $s:expr, $o:expr) => {{
         let _ = (&$s, &$o);
